@@ -111,9 +111,10 @@ class Ctx:
     # -- failure routing
     def _matches_known(self, oracle):
         for k in self.known:
-            if k.get("oracle") not in (oracle, "*"):
-                if not (k.get("oracle", "").endswith("*") and oracle.startswith(k["oracle"][:-1])):
-                    continue
+            pats = k.get("oracle", "")
+            pats = pats if isinstance(pats, list) else [pats]
+            if not any(pt in (oracle, "*") or (pt.endswith("*") and oracle.startswith(pt[:-1])) for pt in pats):
+                continue
             pred = k.get("predicate")
             if pred:
                 fn = getattr(self.module, pred, None)
